@@ -307,6 +307,91 @@ theorem compact_output_parses (full : Bool) (start : Nat) (wal out : Bytes) (ps 
   rw [hrt.2]
   exact compact_equiv ps db fs ho
 
+/-! ### production mode (salt-only scan from a resume position) against SQLite's view -/
+
+/-- a WAL as SQLite leaves it: a well-formed header, chain-valid whole-page frames, then bytes at
+which every reader stops (end of file, or another generation's salts) -/
+structure CleanWal (h : Header) (fs : List Frame) (tail wal : Bytes) : Prop where
+  wf    : h.WF
+  page  : h.pageSize % 8 = 0
+  good  : ∀ f ∈ fs, GoodFrame h f
+  stops : Stops h tail
+  bytes : wal = serialize h fs ++ tail
+
+theorem clean_parse {h : Header} {fs : List Frame} {tail wal : Bytes} (c : CleanWal h fs tail wal) :
+    parseHeader wal = .ok h := by
+  rw [c.bytes, serialize, List.append_assoc]; exact parseHeader_serialize h c.wf _
+
+/-- **clean_wal_fast_eq_full.** On a clean WAL the salt-only scan from ANY frame index `start`
+reads exactly the checksum-verified frames from that index on:
+`scanFrames false h start wal = (scanFrames true h 0 wal).drop start`. -/
+theorem clean_wal_fast_eq_full {h : Header} {fs : List Frame} {tail wal : Bytes} (c : CleanWal h fs tail wal)
+    (start : Nat) (hst : start ≤ fs.length) :
+    scanFrames false h start wal = (fs.drop start, .eof) ∧ scanFrames true h 0 wal = (fs, .eof) := by
+  have hdata : ∀ f ∈ fs, f.data.length = h.pageSize := fun f hf => (c.good f hf).1
+  have hbody : ∀ k, k ≤ fs.length → wal.drop (32 + k * frameSize h) =
+      (serializeFrames h (h.chk1, h.chk2) fs).drop (k * frameSize h) ++ tail := by
+    intro k hk
+    rw [c.bytes, serialize, List.append_assoc, ← List.drop_drop,
+      List.drop_left' (serializeHeader_length h)]
+    rw [List.drop_append_of_le_length]
+    rw [serializeFrames_length_eq h fs _ hdata]
+    exact Nat.mul_le_mul_right _ hk
+  constructor
+  · simp only [scanFrames]
+    obtain ⟨chk', hc'⟩ := serializeFrames_drop h fs (h.chk1, h.chk2) start hdata hst
+    rw [hbody start hst, hc']
+    apply readFrames_serializeFrames_tail false h c.page c.wf.2.2.2.1 c.wf.2.2.2.2.1 tail c.stops
+    · have := serializeFrames_length h (fs.drop start) chk'
+      simp only [List.length_append]; omega
+    · intro f hf; exact c.good f (List.mem_of_mem_drop hf)
+    · intro e; cases e
+  · simp only [scanFrames]
+    rw [hbody 0 (Nat.zero_le _)]
+    simp only [Nat.zero_mul, List.drop_zero]
+    apply readFrames_serializeFrames_tail true h c.page c.wf.2.2.2.1 c.wf.2.2.2.2.1 tail c.stops
+    · have := serializeFrames_length h fs (h.chk1, h.chk2)
+      simp only [List.length_append]; omega
+    · exact c.good
+    · intro _; rfl
+
+/-- **compact_fast_matches_sqlite.** Production mode on a clean WAL, resuming at frame `start`:
+if `compact` returns a WAL, then what SQLite reads from it checkpoints to the same database
+as the frames SQLite reads from the ORIGINAL WAL from `start` on. -/
+theorem compact_fast_matches_sqlite {h : Header} {fs : List Frame} {tail wal : Bytes}
+    (c : CleanWal h fs tail wal) (start : Nat) (hst : start ≤ fs.length) (out : Bytes)
+    (ps : Nat) (db : List Bytes) (hc : compact false start wal = .ok out) :
+    parseHeader out = .ok h ∧
+    ckpt ps db (scanFrames true h 0 out).1 = ckpt ps db ((scanFrames true h 0 wal).1.drop start) := by
+  obtain ⟨hd, fs', hp, hs, hpo, _, hck⟩ := compact_output_parses false start wal out ps db hc
+  rw [clean_parse c] at hp
+  obtain rfl := HdrRes.ok.inj hp
+  obtain ⟨e1, e2⟩ := clean_wal_fast_eq_full c start hst
+  rw [e1] at hs
+  obtain ⟨rfl, _⟩ := Prod.mk.inj hs
+  exact ⟨hpo, by rw [hck, e2]⟩
+
+/-- and it does return a WAL whenever the frames from `start` on end with a commit -/
+theorem compact_fast_succeeds_on_clean_wal {h : Header} {fs : List Frame} {tail wal : Bytes}
+    (c : CleanWal h fs tail wal) (start : Nat) (hst : start ≤ fs.length)
+    (ho : openTx (fs.drop start) = false) :
+    compact false start wal = .ok (serialize h (compactFrames (fs.drop start))) := by
+  obtain ⟨e1, _⟩ := clean_wal_fast_eq_full c start hst
+  have hw : writeCheck h.pageSize (compactFrames (fs.drop start)) = none := by
+    have : ∀ l : List Frame, (∀ f ∈ l, GoodFrame h f) → writeCheck h.pageSize l = none := by
+      intro l
+      induction l with
+      | nil => intro _; rfl
+      | cons f t ih =>
+        intro hg
+        have g := hg f (by simp)
+        simp only [writeCheck]
+        rw [if_neg (by rw [g.1]; omega), if_neg (by simp [c.page])]
+        exact ih (fun x hx => hg x (by simp [hx]))
+    exact this _ (fun f hf => c.good f (List.mem_of_mem_drop ((compact_sublist _).subset hf)))
+  simp only [compact, clean_parse c, e1, ho, scanLiteral_eq _ ho, hw]
+  simp
+
 /-! ### valid prefix -/
 
 /-- one step of the checksumming scan: either it stops, or it emits the frame at the head of
@@ -390,5 +475,39 @@ example :
     ckpt 1 [[7], [8], [9], [10]] fs = [[3], [2], [4]] := by decide
 
 example : openTx [⟨1, 1, [1]⟩, ⟨2, 0, [2]⟩] = true := by decide
+
+/-! a concrete clean WAL (big-endian checksums, 8-byte pages, three frames in two transactions,
+followed by a stale frame of another generation) on which `compact` returns a WAL -/
+def exHdrBytes : Bytes := enc32 magicBE ++ (enc32 walVersion ++ (enc32 8 ++ (enc32 0 ++ (enc32 1 ++ enc32 2))))
+def exH : Header :=
+  { magic := magicBE, pageSize := 8, seq := 0, salt1 := 1, salt2 := 2,
+    chk1 := (cksum false 0 0 exHdrBytes).1, chk2 := (cksum false 0 0 exHdrBytes).2 }
+def exFrames : List Frame := [⟨1, 1, [1, 1, 1, 1, 1, 1, 1, 1]⟩, ⟨2, 0, [2, 2, 2, 2, 2, 2, 2, 2]⟩, ⟨2, 2, [3, 3, 3, 3, 3, 3, 3, 3]⟩]
+def exTail : Bytes := enc32 1 ++ enc32 1 ++ enc32 0 ++ enc32 9 ++ enc32 0 ++ enc32 0 ++ [0, 0, 0, 0, 0, 0, 0, 0]
+
+theorem exClean : CleanWal exH exFrames exTail (serialize exH exFrames ++ exTail) where
+  wf := by
+    refine ⟨Or.inr rfl, by decide, by decide, by decide, by decide, ?_⟩
+    rfl
+  page := by decide
+  good := by
+    intro f hf
+    simp only [exFrames, List.mem_cons, List.mem_nil_iff, or_false] at hf
+    rcases hf with rfl | rfl | rfl <;> exact ⟨by decide, by decide, by decide, by decide⟩
+  stops := Or.inr (Or.inl (by decide))
+  bytes := rfl
+
+example : compact false 1 (serialize exH exFrames ++ exTail) =
+    .ok (serialize exH [⟨2, 2, [3, 3, 3, 3, 3, 3, 3, 3]⟩]) :=
+  compact_fast_succeeds_on_clean_wal exClean 1 (by decide) (by decide)
+
+example : ∃ out, compact true 0 (serialize exH exFrames ++ exTail) = .ok out ∧
+    compact false 0 (serialize exH exFrames ++ exTail) = .ok out := by
+  refine ⟨serialize exH (compactFrames exFrames), ?_, ?_⟩
+  · have := compact_fast_succeeds_on_clean_wal exClean 0 (by decide) (by decide)
+    have e := (clean_wal_fast_eq_full exClean 0 (by decide)).2
+    simp only [compact, clean_parse exClean, e]
+    simpa [compact, clean_parse exClean, (clean_wal_fast_eq_full exClean 0 (by decide)).1] using this
+  · simpa using compact_fast_succeeds_on_clean_wal exClean 0 (by decide) (by decide)
 
 end C05
